@@ -63,6 +63,9 @@ def run(check, prog):
     bg_correct(check, prog, canon)
     zero_filter(check, prog, canon)
     c16.accumulator(check, prog)
+    # every tool returns through copy_metadata: its semantics (shared with C01)
+    from . import c01
+    c01.f6_copy_metadata(check, prog)
     center_priors(check, prog)
     subimage(check, prog)
 
